@@ -1830,6 +1830,9 @@ class Builder:
             for a, l in f:
                 self._edge(a, l, head)
             self.dangling = t
+        if i + 1 == len(gens) and self.dangling:
+            # where one element is produced (every filter passed)
+            self._emit('nop', None, frame).extra['comp_elt'] = e
         self._comp(e, i + 1, frame)
         for a, l in self.dangling:
             self._edge(a, l, head)
